@@ -1,13 +1,13 @@
 import EG.Generated.FindLinksTable
 /-
   C09 (part 1: the tie to the code) — `find_links()` of the real code on the complete
-  per-link decision domain (5 classes × 4 relations of the link to (a,b) × direction flag
-  × 4 unknown-handling values × 3 filter outcomes = 480 rows, regenerated every run).
+  per-link decision domain (6 classes × 4 relations of the link to (a,b) × direction flag
+  × 4 unknown-handling values × 3 filter outcomes = 576 rows, regenerated every run).
 -/
 namespace EG
 namespace Tab
 
-theorem C09_table_complete : implFl.length = 480 := by decide +kernel
+theorem C09_table_complete : implFl.length = 576 := by decide +kernel
 
 theorem C09_impl_eq_model : implFl.all flRowOk = true := by decide +kernel
 
